@@ -5,6 +5,8 @@ MCBlocks == <<"A0", "A1", "B", "C">>
 WritesBC == [b \in {"A0", "A1", "B", "C"} |-> CASE b = "A0" -> "v0" [] b = "A1" -> "" [] b = "B" -> "v1" [] b = "C" -> "v2"]
 WritesB  == [b \in {"A0", "A1", "B", "C"} |-> CASE b = "A0" -> "v0" [] b = "A1" -> "" [] b = "B" -> "v1" [] b = "C" -> ""]
 WritesOnlyB == [b \in {"A0", "A1", "B", "C"} |-> CASE b = "B" -> "v1" [] OTHER -> ""]
+\* no per-key map exists at the start: both committers have to create it
+WritesFreshBC == [b \in {"A0", "A1", "B", "C"} |-> CASE b = "B" -> "v1" [] b = "C" -> "v2" [] OTHER -> ""]
 WritesNone == [b \in {"A0", "A1", "B", "C"} |-> CASE b = "A0" -> "v0" [] OTHER -> ""]
 \* 1 committer (B) + 1 reader, every placement
 R_A1 == [r1 |-> "A1"]
